@@ -112,6 +112,8 @@ func (t *Tree) SetScript(rel string, s Script) error {
 	if err := os.MkdirAll(filepath.Dir(sp), 0o755); err != nil {
 		return err
 	}
+	// a new script starts with fresh rule counters
+	_ = os.Remove(filepath.Join(t.Root, ".vhook", "state", rel+".json"))
 	b, _ := json.Marshal(s)
 	tmp := sp + ".tmp"
 	if err := os.WriteFile(tmp, b, 0o644); err != nil {
